@@ -48,6 +48,10 @@ let eval inp =
   | ["Q"; s] -> hex (M.quote (unhex s))
   | ["J"; ss] -> hex (M.join (unhexs ss))
   | ["R"; ss] -> show_split (M.split (M.join (unhexs ss)))
+  | ["P"; s] ->
+    (* not a harness line: bin/dash-shell asks for the transcription's reading of a text, to compare
+       it with real shells *)
+    (match M.posix_words (unhex s) with None -> "None" | Some ws -> hexs ws)
   | ["H"; ss] ->
     let l = unhexs ss in
     let rec prefixes acc = function [] -> [] | x :: r -> let p = acc @ [x] in p :: prefixes p r in
